@@ -45,6 +45,13 @@ def judge(ctx, vh, hists, files, name, stride=1):
         fp = os.path.join(d, "files.ndjson")
         core.run_vh(vh, ["ge-files", "-out", fp] + files, timeout=600)
         raw += open(fp).readlines()
+        # one node of every registered type (chunks of 12 / 5 per application): save -> load -> save
+        for chunk in (12, 5):
+            ap = os.path.join(d, "alltypes%d.ndjson" % chunk)
+            core.run_vh(vh, ["ge-alltypes", "-out", ap, "-chunk", str(chunk)], timeout=600)
+            lines = open(ap).readlines()
+            ctx.extra["registered_types_round_tripped"] = sum(json.loads(x)["nodes"] for x in lines)
+            raw += lines
     res = core.validate_sharded(ctx, name, "TraceGraphEdit", "TraceGraphEdit.cfg", raw, timeout=1800)
     findings = []
     for sh, r in res:
@@ -64,7 +71,7 @@ def report(ctx, hists, findings):
         c12 = [p for p in v["bad"] if p.startswith("C12.")]
         if ln["k"] == "file":
             for p in c12:
-                ctx.violation("%s/file:%s" % (p, os.path.basename(ln["file"])), "%s for shipped graph %s" % (p, ln["file"]),
+                ctx.violation("%s/file:%s" % (p, os.path.basename(ln["file"].split(" ")[0])), "%s for graph %s" % (p, ln["file"]),
                               {"family": "graphedit", "file": ln["file"]})
             continue
         h = ln["h"]
